@@ -358,13 +358,17 @@ pub fn int_rect(w: i32, h: i32) -> BoxedStrategy<(i32, i32, i32, i32)> {
 
 /// simple polygon-ish path with float coordinates (lines only)
 pub fn poly_path(ext: f32) -> BoxedStrategy<PathSpec> {
-    (prop::collection::vec((coord(ext), coord(ext)), 3..=6), any::<bool>(), any::<bool>())
-        .prop_map(|(pts, close, evenodd)| {
+    (prop::collection::vec((coord(ext), coord(ext)), 3..=6), any::<bool>(), any::<bool>(), prop::bool::weighted(0.25))
+        .prop_map(|(pts, close, evenodd, back)| {
             let mut ops = vec![POp::M(pts[0].0, pts[0].1)];
             for p in &pts[1..] {
                 ops.push(POp::L(p.0, p.1));
             }
             if close {
+                // a quarter of the closed polygons return to their first point explicitly before closing
+                if back {
+                    ops.push(POp::L(pts[0].0, pts[0].1));
+                }
                 ops.push(POp::Z);
             }
             PathSpec { ops, evenodd }
